@@ -209,8 +209,9 @@ func (b *builder) nhPayload() *aftpb.Afts_NextHop {
 }
 
 var nis = []string{"DEFAULT", "VRF1", "", "ni with spaces"}
-var v4s = []string{"10.0.0.0/8", "192.0.2.0/24", "0.0.0.0/0"}
-var v6s = []string{"2001:db8::/32", "::/0"}
+// (spellings that a canonicaliser would change are part of the pool: the builder emits what it was given)
+var v4s = []string{"10.0.0.0/8", "192.0.2.0/24", "0.0.0.0/0", "10.1.2.3/8", "192.0.2.129/25"}
+var v6s = []string{"2001:db8::/32", "::/0", "2001:DB8::/32", "2001:db8:0:0::/64", "2001:db8::1/64"}
 var ips = []string{"192.0.2.1", "2001:db8::1", "198.51.100.7"}
 
 // The fluent builder types are unexported: generic functions whose type parameter is
